@@ -22,11 +22,17 @@ var (
 		"127.0.0.1", "10.0.0.5", "10.1.2.3", "192.168.1.7", "192.168.2.7", "::1", "2001:db8::1", "2001:db9::1",
 		"::ffff:10.0.0.5", "fe80::1", "1.2.3.999", "ab", "[::1]", "0.0.0.0", "::",
 	}
-	ePoolNames = []string{"laptop", "phone", "Frank's laptop", "a,b", "tv", "pc|x", "Mary \"the\" PC", "x/y", "ff", "~tilde", "é", "kids,tv|box", "back\\slash"}
+	ePoolNames = []string{"laptop", "phone", "Frank's laptop", "a,b", "tv", "pc|x", "Mary \"the\" PC", "x/y", "ff", "~tilde", "é", "Fränk", "Frank's läptop", "日本", "ſ", "kids,tv|box", "back\\slash"}
 	ePoolTagsX = []string{"device_pc", "device_phone", "device_", "device_pc2", "os_linux", "user_admin", "user_child", "a", "b", "c", "aa", "ab", "z9", "_", "0"}
 	ePoolDNS   = []string{"A", "AAAA", "CNAME", "HTTPS", "TXT", "MX", "PTR", "SRV", "SVCB", "a", "aaaa", "Https", "NS", "SOA", "ANY", "TYPE65", "None", "Reserved", "", "A1"}
 	ePoolSrc   = []string{"com", "org", "co.uk", "de", "blogspot.com", "kawasaki.jp", "city.kawasaki.jp", "notgoogle.com", "github.io", "local", "example"}
 )
+
+// eReseed decorrelates the streams of different seeds: newRng(seed) starts the
+// splitmix64 counter at seed*gamma, so the streams of seeds k and k+1 are the same
+// stream shifted by one draw; generators that consume a variable number of draws per
+// op then re-synchronise.  The first OUTPUT is a mixed value, use it as the new state.
+func eReseed(r *rng) *rng { return &rng{s: r.u64() ^ 0x5DEECE66D} }
 
 func eQuoteClient(r *rng, c string) string {
 	c = strings.ReplaceAll(c, ",", `\,`)
